@@ -10,6 +10,7 @@ import (
 	"encoding/hex"
 	"encoding/json"
 	"fmt"
+	"io"
 	"os"
 	"os/exec"
 	"path/filepath"
@@ -20,6 +21,7 @@ import (
 	"sync"
 	"syscall"
 	"time"
+	"unsafe"
 
 	"verifharness/wire"
 )
@@ -518,7 +520,18 @@ func (r *Run) runBatch(k int, lo, hi int, opts ExecOpts, gen func(i int) *Item) 
 		cmd.Env = append(append(os.Environ(), opts.Env...), "VW_REPO_PREFIX="+RepoRoot+"/")
 		ef, _ := os.Create(errPath)
 		sf, _ := os.Create(stdoutPath)
-		if opts.Stdout != "" {
+		var ptyMaster *os.File
+		if opts.Stdout == "pty" {
+			// the worker's standard output is a terminal (the slave side of a fresh pseudo-terminal; the master side
+			// is drained and thrown away): what a library call does differently "on a terminal" shows here
+			if m, sl, err := openPty(); err == nil {
+				sf.Close()
+				sf, ptyMaster = sl, m
+				go io.Copy(io.Discard, m)
+			} else {
+				r.Count("pty_unavailable", 1)
+			}
+		} else if opts.Stdout != "" {
 			if alt, err := os.OpenFile(opts.Stdout, os.O_WRONLY, 0); err == nil {
 				sf.Close()
 				sf = alt
@@ -557,6 +570,9 @@ func (r *Run) runBatch(k int, lo, hi int, opts ExecOpts, gen func(i int) *Item) 
 		}
 		ef.Close()
 		sf.Close()
+		if ptyMaster != nil {
+			ptyMaster.Close()
+		}
 
 		// parse output
 		completed := map[int]bool{}
@@ -816,4 +832,28 @@ func oneLine(s string, n int) string {
 		s = s[:n] + "..."
 	}
 	return s
+}
+
+// openPty returns the two sides of a fresh pseudo-terminal (Linux: /dev/ptmx, TIOCSPTLCK, TIOCGPTN).
+func openPty() (master, slave *os.File, err error) {
+	master, err = os.OpenFile("/dev/ptmx", os.O_RDWR|syscall.O_NOCTTY, 0)
+	if err != nil {
+		return nil, nil, err
+	}
+	var unlock int32
+	if _, _, e := syscall.Syscall(syscall.SYS_IOCTL, master.Fd(), syscall.TIOCSPTLCK, uintptr(unsafe.Pointer(&unlock))); e != 0 {
+		master.Close()
+		return nil, nil, e
+	}
+	var n uint32
+	if _, _, e := syscall.Syscall(syscall.SYS_IOCTL, master.Fd(), syscall.TIOCGPTN, uintptr(unsafe.Pointer(&n))); e != 0 {
+		master.Close()
+		return nil, nil, e
+	}
+	slave, err = os.OpenFile(fmt.Sprintf("/dev/pts/%d", n), os.O_RDWR|syscall.O_NOCTTY, 0)
+	if err != nil {
+		master.Close()
+		return nil, nil, err
+	}
+	return master, slave, nil
 }
